@@ -650,6 +650,22 @@ func (s *State) exec(ins ssa.Instruction) (next []*State, stop bool) {
 	case *ssa.Return:
 		return s.execReturn(ins)
 	case *ssa.Panic:
+		// ghost anchor "panic#k": the k-th explicit panic statement of the function (source order)
+		if s.Frame.Caller == nil {
+			k := 0
+			for _, b := range s.Frame.Fn.Blocks {
+				for _, i2 := range b.Instrs {
+					if p2, ok := i2.(*ssa.Panic); ok {
+						if p2.Pos().IsValid() {
+							k++
+						}
+						if p2 == ins {
+							s.runGhost(s.Frame, fmt.Sprintf("panic#%d", k))
+						}
+					}
+				}
+			}
+		}
 		s.safety("safe-panic", ins, "false")
 		return nil, true
 	default:
